@@ -35,6 +35,9 @@ fn check_inner(cw: u8, cn: u8, tw: u8, tn: u8, dict: u8, corpus: usize, solver: 
         ["猫", "火星", "ab", "です", "これは", "は", "を", "が", "に", "と", "パン", "ペン", "バス", "テスト", "カメラ", "ノート", "サッカー", "タクシー", "コーヒー", "アルバイト", "ヌネ", "ムモヤユヨ"]
             .iter().map(|w| w.to_string()).collect()
     } else { vec![] };
+    // dictionary bucket 2 = the same list with two words REPEATED (lists merged from several sources): the trainer may reject
+    // it; if it accepts it, the model must still score as the learned weights of the extracted features dictate
+    let words: Vec<String> = if dict == 2 { let mut w = words; w.push("猫".to_string()); w.push("テスト".to_string()); w } else { words };
     // tag dictionary: default tags for tokens that may be absent from the corpus
     let tag_dict: Vec<Sentence> = if dict == 3 { vec![Sentence::from_tokenized("猫/名詞/ネコ 犬/名詞/イヌ 行っ/動詞/イッ").unwrap()] } else { vec![] };
     let mut t = match Trainer::new(cw, cn, tw, tn, words.clone(), dict, &tag_dict) {
@@ -191,6 +194,13 @@ pub fn search() -> Option<String> {
                 if let Some(d) = check(cw, cn, tw, tn, dict, corpus, solver) {
                     return Some(d);
                 }
+            }
+        }
+    }
+    for corpus in 0..CORPORA.len() {
+        for (cw, cn, tw, tn) in [(1u8, 1u8, 1u8, 1u8), (2, 2, 2, 2)] {
+            if let Some(d) = check(cw, cn, tw, tn, 2, corpus, 0) {
+                return Some(d);
             }
         }
     }
